@@ -135,6 +135,23 @@ Definition wmts_rectangle (g : grid) (col row l : Z) : bbox := tile_bbox (nw_gri
 Definition obbox_eqb (a b : option bbox) : bool :=
   match a, b with Some x, Some y => bbox_eqb x y | None, None => true | _, _ => false end.
 
+(* ---- TileManager._scaled_tile (downscale_tiles / upscale_tiles): tile (its rectangle b) is built from the tiles of
+   the neighbouring level sl that get_affected_level_tiles lists for b, row-major from the top; a source tile that is
+   outside the grid, or neither cached nor creatable (RESCALE_TILE_MISSING), stays in the list as None so that
+   every tile keeps its cell of the mosaic *)
+Definition mask_missing (avail : Z * Z * Z -> bool) (ts : list (option (Z * Z * Z))) : list (option (Z * Z * Z)) :=
+  map (fun ot => match ot with Some t => if avail t then Some t else None | None => None end) ts.
+Definition scaled_tile_sources (g : grid) (avail : Z * Z * Z -> bool) (b : bbox) (sl : Z) : affected :=
+  match affected_level_tiles g b sl with
+  | Affected ab nx ny ts => Affected ab nx ny (mask_missing avail ts)
+  | InvalidBBOX => InvalidBBOX
+  end.
+(* a WMS source with a bbox coverage delivers a tile iff the tile meets the coverage *)
+Definition avail_in_coverage (g : grid) (cov : bbox) (t : Z * Z * Z) : bool :=
+  let '(x, y, l) := t in bbox_intersects cov (tile_bbox g x y l).
+Definition present_mask (ts : list (option (Z * Z * Z))) : list bool :=
+  map (fun ot => match ot with Some _ => true | None => false end) ts.
+
 (* ---- CacheMapLayer._image for a request in the grid SRS: level, mosaic bbox, mosaic grid, tiles *)
 Inductive map_plan :=
 | Blank                                   (* NoTiles -> BlankImage *)
@@ -287,6 +304,12 @@ Definition adapt_to_version {A} (v : wms_version) (ne : bool) (internal : A * A 
 Definition wire_rectangle {A} (v : wms_version) (ne : bool) (wire : A * A * A * A) : A * A * A * A :=
   let '(a, b, c, d) := wire in
   match v, ne with V130, true => (b, a, d, c) | _, _ => (a, b, c, d) end.
+
+(* GetFeatureInfo pixel position: X/Y in 1.0.0 - 1.1.1, I/J in 1.3.0 (WMS130FeatureInfoRequest.adapt_to_111 copies
+   i -> x, j -> y; adapt_params_to_version copies x -> i, y -> j).  Unlike the BBOX it never follows the axis
+   order of the CRS: I / X is always the column, J / Y the row. *)
+Definition info_pos_to_111 {A} (v : wms_version) (ne : bool) (wire : A * A) : A * A := wire.
+Definition info_pos_to_version {A} (v : wms_version) (ne : bool) (internal : A * A) : A * A := internal.
 
 (* ---- comparison helpers for the correspondence *)
 Definition qclose (tol a b : Q) : bool := Qle_bool (Qabs (a - b)) tol.
